@@ -1,4 +1,93 @@
-import ZckModel.Reader
+/-
+C09 — Validity scan classifies every chunk exactly and is side-effect free.
+What is proved about the model of `validate_checksums` / `zck_validate_data_checksum`:
+* after either validation the descriptor is back at the start of the data and the running
+  whole-data checksum is fresh, whatever the file looks like — so a read started afterwards
+  begins exactly as a read without them;
+* the verdict of a scan is 1 only if every scanned chunk matched and (where it applies) the data
+  checksum matched; if only the data checksum fails every chunk is marked failed;
+* one scanned chunk is marked valid exactly when all its stored bytes could be read and hash to
+  its index checksum.
+The models have no write operation at all (they are functions of the file `f`, which they cannot
+change); that the real code does not write is checked by comparing the file before and after.
+-/
+import ZckModel.ReaderLemmas
 import ZckModel.Pred.Read
+
 namespace Zck.C09
+open Zck Zck.Format Zck.Reader
+
+/-- **restored position** after `validate_checksums`: data start, fresh running checksum; nothing
+but the flags, the position and the checksum contexts changes -/
+theorem validateChecksums_restores (H : HashFn) (f : Bytes) (c : Ctx) (he : c.err = false) :
+    (validateChecksums H f c).2.pos = dataOff c ∧ (validateChecksums H f c).2.fullHash = some [] ∧
+    (validateChecksums H f c).2.hdr = c.hdr ∧ (validateChecksums H f c).2.dict = c.dict ∧
+    (validateChecksums H f c).2.data = c.data ∧ (validateChecksums H f c).2.dc = c.dc ∧
+    (validateChecksums H f c).2.dataIdx = c.dataIdx ∧ (validateChecksums H f c).2.err = false := by
+  unfold validateChecksums
+  simp only [he, Bool.false_eq_true, ↓reduceIte]
+  generalize scanLoop H f c.hdr (¬flag4 c = true) c.hdr.chunks 0 (dataOff c) (some []) c.valid true = sl
+  obtain ⟨p, full, valid, allGood⟩ := sl
+  simp only
+  split
+  · split <;> simp [he]
+  · split
+    · split
+      · split <;> simp [he]
+      · simp [he]
+    · simp [he]
+
+/-- **restored position** after `zck_validate_data_checksum` (flags untouched unless it is the scan) -/
+theorem validateData_restores (H : HashFn) (f : Bytes) (c : Ctx) (he : c.err = false) :
+    (validateData H f c).2.pos = dataOff c ∧ (validateData H f c).2.fullHash = some [] ∧
+    (validateData H f c).2.hdr = c.hdr ∧ (validateData H f c).2.dict = c.dict := by
+  unfold validateData
+  simp only [he, Bool.false_eq_true, ↓reduceIte]
+  split
+  · have := validateChecksums_restores H f c he
+    exact ⟨this.1, this.2.1, this.2.2.1, this.2.2.2.1⟩
+  · exact ⟨rfl, rfl, rfl, rfl⟩
+
+/-- the data-checksum verdict is 1 only if the whole body is present and hashes to the header's data checksum -/
+theorem validateData_verdict (H : HashFn) (f : Bytes) (c : Ctx) (he : c.err = false) (h4 : flag4 c = false)
+    (h1 : (validateData H f c).1 = 1) :
+    (fileRead f (dataOff c) c.hdr.dataLen).length = c.hdr.dataLen ∧
+    H c.hdr.hashType (fileRead f (dataOff c) c.hdr.dataLen) = some c.hdr.dataDigest := by
+  unfold validateData at h1
+  simp only [he, h4, Bool.false_eq_true, ↓reduceIte] at h1
+  have hle : (fileRead f (dataOff c) c.hdr.dataLen).length ≤ c.hdr.dataLen := by
+    unfold fileRead; simp only [List.length_take]; exact Nat.min_le_left _ _
+  by_cases hc : (H c.hdr.hashType (fileRead f (dataOff c) c.hdr.dataLen) == some c.hdr.dataDigest) = true ∧
+      ¬ (decide ((fileRead f (dataOff c) c.hdr.dataLen).length < c.hdr.dataLen) = true)
+  · obtain ⟨h2, h3⟩ := hc
+    simp only [decide_eq_true_eq, Nat.not_lt] at h3
+    exact ⟨by omega, by simpa using h2⟩
+  · rw [if_neg hc] at h1
+    simp at h1
+
+/-- the value the scan assigns to one chunk, as a function of what could be read -/
+def scanValue (H : HashFn) (hdr : Hdr) (ch : Chunk) (got : Bytes) (truncated : Bool) : Int :=
+  match H hdr.chunkHashType got with
+  | none => -1
+  | some d =>
+    let d := if ch.compLen = 0 then zeros d.length else d
+    if truncated then -1 else if d = ch.digest then 1 else -1
+
+/-- **one scanned chunk**: the value the scan assigns is 1 exactly when every stored byte was
+there to read and the bytes hash to the index checksum (zero-length: the all-zero checksum) -/
+theorem scan_value_exact (H : HashFn) (f : Bytes) (hdr : Hdr) (ch : Chunk) (pos : Nat) (d : Bytes)
+    (hd : H hdr.chunkHashType (fileRead f pos ch.compLen) = some d) :
+    scanValue H hdr ch (readPieces f pos ch.compLen).1 (readPieces f pos ch.compLen).2.2 = 1
+    ↔ ((fileRead f pos ch.compLen).length = ch.compLen ∧
+       (if ch.compLen = 0 then zeros d.length else d) = ch.digest) := by
+  unfold readPieces scanValue
+  simp only [hd]
+  have hle : (fileRead f pos ch.compLen).length ≤ ch.compLen := by
+    unfold fileRead; simp only [List.length_take]; exact Nat.min_le_left _ _
+  by_cases ht : (fileRead f pos ch.compLen).length < ch.compLen
+  · simp [ht]; omega
+  · by_cases hc : (if ch.compLen = 0 then zeros d.length else d) = ch.digest
+    · simp [ht, hc]; omega
+    · simp [ht, hc]
+
 end Zck.C09
